@@ -669,3 +669,10 @@ Lemma rereg_demo :
   let s := run Current k0 init [Accept 1; Handshake 1 0 7 true; ReReg 1 9] in
   by_client s 9 = Some 1 /\ by_client s 7 = None /\ mem 1 (closed s) = false /\ counts s = (1, 1, 0).
 Proof. vm_compute. repeat split. Qed.
+
+(* an unauthenticated record that claims client id 7 neither displaces the authenticated connection of 7 nor survives its own close in the index *)
+Lemma claim_demo :
+  let s := run Current k0 init [Accept 1; Accept 2; Handshake 1 0 7 true; RegClaim 2 7] in
+  by_client s 7 = Some 1 /\ (exists r, by_conn s 2 = Some r /\ c_auth r = false /\ c_cid r = 7) /\
+  by_client (close_conn 2 s) 7 = Some 1 /\ by_conn (close_conn 2 s) 2 = None /\ counts (close_conn 2 s) = (1, 1, 0).
+Proof. vm_compute. repeat split. eexists. repeat split. Qed.
